@@ -1,6 +1,7 @@
 """C20 -- benchmark models.  The numpy code (nanmax / nanmean / argmax / fancy indexing of ConstantPredictionAlgorithm,
 the LME algebra on numpy arrays, statsmodels) is outside the verifier's subset and is decided by the bounded stand-in
 (exhaustive small scope).  Under contract here: ConstantModel.compute_individual_trajectory."""
+import numpy as np
 import z3
 
 from pyvc.api import *
@@ -43,8 +44,280 @@ class ConstantTrajectory(Spec):
         return res
 
 
-UNITS = [ConstantTrajectory()]
-CALLEES = []
-NOT_DECIDED = ["ConstantPredictionAlgorithm._get_feature_values and the LME personalisation (numpy / statsmodels): bounded stand-in only"]
-ASSUMPTIONS = ["torch.tensor(nested list) builds the tensor row by row"]
-LEVEL = "exploration"   # the property is decided mainly by the bounded stand-in (numpy / statsmodels code)
+# ------------------------------------------------------------------------------------------------------------------
+# ConstantPredictionAlgorithm._get_feature_values: any number of visits and features
+from pyvc.tensor import F_ISNAN, dim_z3
+
+
+class FeatureValues(Spec):
+    """ConstantPredictionAlgorithm._get_feature_values(times, values), for ANY number of visits (>= 1) and of features (>= 1),
+    ages in any order, any pattern of missing values:
+      max        -- per feature, the largest non-missing value (one of the observed values, >= every other), missing iff all are;
+      mean       -- per feature, (sum of the non-missing values) / (their number), missing iff all are;
+      last       -- the values of one visit whose age is >= every age (missing values kept);
+      last-known -- per feature, the non-missing value of a visit whose age is >= the age of every visit where that feature
+                    is not missing; missing iff all are."""
+    target = "leaspy.algo.personalize.constant_prediction_algo:ConstantPredictionAlgorithm._get_feature_values"
+
+    def configs(self):
+        return [dict(kind=k) for k in ("max", "mean", "last", "last-known")]
+
+    def setup(self, cx, cfg):
+        from leaspy.algo.personalize.constant_prediction_algo import ConstantPredictionAlgorithm, PredictionType
+        N, F = z3.Ints("n_visits n_features")
+        self_ = SymObj(ConstantPredictionAlgorithm, dict(prediction_type=PredictionType(cfg["kind"])))
+        times = STensor.sym(cx, "times", (N,))
+        values = STensor.sym(cx, "values", (N, F))
+        return dict(args=(self_, times, values), N=N, F=F, times=times, values=values)
+
+    def pre(self, cx, st):
+        k = z3.Int("k_pre")
+        return [("at least one visit and one feature", z3.And(st["N"] >= 1, st["F"] >= 1)),
+                ("ages are numbers (never NaN: the reader refuses them)", z3.ForAll([k], z3.Not(F_ISNAN(st["times"].fn((k,))))))]
+
+    def post(self, cx, st, out):
+        r, kind = out.value, st["cfg"]["kind"]
+        N, F, T, V = st["N"], st["F"], st["times"], st["values"]
+        ok = isinstance(r, STensor) and r.ndim == 1
+        res = [("a 1-D array", z3.BoolVal(bool(ok)))]
+        if not ok:
+            return res
+        res.append(("one entry per feature", dim_z3(r.shape_[0]) == F))
+        f, i, j, k = z3.Ints("f_p i_p j_p k_p")
+        inF = z3.And(0 <= f, f < F)
+
+        def inN(x):
+            return z3.And(0 <= x, x < N)
+
+        def obs(x):
+            return z3.Not(F_ISNAN(V.fn((x, f))))
+        all_missing = z3.ForAll([i], z3.Implies(inN(i), z3.Not(obs(i))))
+        rf = r.fn((f,))
+        if kind == "max":
+            body = z3.If(all_missing, F_ISNAN(rf),
+                         z3.And(z3.Not(F_ISNAN(rf)), z3.ForAll([i], z3.Implies(z3.And(inN(i), obs(i)), V.fn((i, f)) <= rf)),
+                                z3.Exists([j], z3.And(inN(j), obs(j), V.fn((j, f)) == rf))))
+            res.append(("per feature: the largest non-missing value; missing iff every value is", z3.ForAll([f], z3.Implies(inF, body))))
+        elif kind == "mean":
+            from pyvc.tensor import sigma_term
+            s = sigma_term(cx, lambda x: z3.If(F_ISNAN(V.fn((x, f))), z3.RealVal(0), V.fn((x, f))), N)
+            c = sigma_term(cx, lambda x: z3.If(F_ISNAN(V.fn((x, f))), z3.RealVal(0), z3.RealVal(1)), N)
+            body = z3.If(c == 0, F_ISNAN(rf), z3.And(z3.Not(F_ISNAN(rf)), rf * c == s))
+            res.append(("per feature: sum of the non-missing values over their number; missing iff there is none", z3.ForAll([f], z3.Implies(inF, body))))
+        elif kind == "last":
+            res.append(("the values of one visit whose age is >= every age",
+                        z3.Exists([j], z3.And(inN(j), z3.ForAll([k], z3.Implies(inN(k), T.fn((k,)) <= T.fn((j,)))),
+                                              z3.ForAll([f], z3.Implies(inF, rf == V.fn((j, f))))))))
+        else:
+            body = z3.If(all_missing, F_ISNAN(rf),
+                         z3.Exists([j], z3.And(inN(j), obs(j), rf == V.fn((j, f)),
+                                               z3.ForAll([k], z3.Implies(z3.And(inN(k), obs(k)), T.fn((k,)) <= T.fn((j,)))))))
+            res.append(("per feature: the non-missing value of the most recent visit where it is not missing; missing iff every value is",
+                        z3.ForAll([f], z3.Implies(inF, body))))
+        return res
+
+
+# ------------------------------------------------------------------------------------------------------------------
+# LME benchmark: conditional means of the random effects, straight-line trajectories
+def _lme_model(cx, slope):
+    from leaspy.models.lme import LMEModel
+    k = 2 if slope else 1
+    par = dict(ages_mean=SV(z3.Real("ages_mean"), "real"), ages_std=SV(z3.Real("ages_std"), "real"),
+               fe_params=STensor.sym(cx, "fe_params", (2,)), cov_re_unscaled_inv=STensor.sym(cx, "cov_re_unscaled_inv", (k, k)))
+    return SymObj(LMEModel, dict(parameters=par, with_random_slope_age=slope, features=["Y"])), par
+
+
+class RemoveNans(Spec):
+    """assumed callee contract of LMEPersonalizeAlgorithm._remove_nans (boolean-mask selection is outside the subset; the
+    bounded stand-in runs the real one): two arrays of one common length holding the non-missing values and their ages."""
+    target = "leaspy.algo.personalize.lme_personalize:LMEPersonalizeAlgorithm._remove_nans"
+
+    def bind(self, it, args, kwargs):
+        return dict(args=args)
+
+    def result(self, cx, st):
+        m = z3.Int(cx.fresh_name("n_obs"))
+        cx.assume(m >= 0)
+        v, t = STensor.sym(cx, cx.fresh_name("obs_values"), (m,)), STensor.sym(cx, cx.fresh_name("obs_ages"), (m,))
+        cx.ghost.update(n_obs=m, obs_values=v, obs_ages=t)
+        return (v, t)
+
+
+class GenericRandomEffects(Spec):
+    """LMEPersonalizeAlgorithm._generic_get_random_effects(resid, Z, C): for ANY number of observations, the solution b of
+    (Z'Z + C) b = Z' resid -- the conditional mean of the random effects given the variance components; a singular
+    Z'Z + C makes numpy raise LinAlgError.  Verified on the real body, used as the callee's contract by RandomEffects."""
+    target = "leaspy.algo.personalize.lme_personalize:LMEPersonalizeAlgorithm._generic_get_random_effects"
+
+    def configs(self):
+        return [dict(k_re=1), dict(k_re=2)]
+
+    def setup(self, cx, cfg):
+        n, k = z3.Int("n_obs"), cfg["k_re"]
+        cx.assume(n >= 0)
+        st = dict(resid=STensor.sym(cx, "resid", (n,)), Z=STensor.sym(cx, "Z", (n, k)), C=STensor.sym(cx, "C", (k, k)), k=k, n=n)
+        st["args"] = (st["resid"], st["Z"], st["C"])
+        return st
+
+    def bind(self, it, args, kwargs):
+        resid, Z, C = args
+        k = Z.shape_[1]
+        if not (isinstance(k, int) and k in (1, 2)):
+            raise OutOfSubset("random effects of this dimension")
+        return dict(resid=resid, Z=Z, C=C, k=k, n=Z.shape_[0])
+
+    def _system(self, cx, st):
+        from pyvc.tensor import sigma_term
+        Z, C, r, k, n = st["Z"], st["C"], st["resid"], st["k"], st["n"]
+        A = [[sigma_term(cx, (lambda q, i=i, j=j: Z.fn((q, z3.IntVal(i))) * Z.fn((q, z3.IntVal(j)))), n) + C.at(i, j) for j in range(k)] for i in range(k)]
+        v = [sigma_term(cx, (lambda q, i=i: Z.fn((q, z3.IntVal(i))) * r.fn((q,))), n) for i in range(k)]
+        det = A[0][0] if k == 1 else A[0][0] * A[1][1] - A[0][1] * A[1][0]
+        return A, v, det
+
+    def raises(self, cx, st):
+        return [(np.linalg.LinAlgError, self._system(cx, st)[2] == 0)]
+
+    def result(self, cx, st):
+        return STensor.sym(cx, cx.fresh_name("random_effects"), (st["k"],))
+
+    def post(self, cx, st, out):
+        b = out.value
+        ok = isinstance(b, STensor) and b.ndim == 1
+        res = [("a 1-D array", z3.BoolVal(bool(ok)))]
+        if not ok:
+            return res
+        k = st["k"]
+        A, v, _ = self._system(cx, st)
+        res.append(("one entry per random effect", dim_z3(b.shape_[0]) == k))
+        for i in range(k):
+            res.append((f"row {i} of (Z'Z + C) b = Z' resid", sum(A[i][j] * b.at(j) for j in range(k)) == v[i]))
+        return res
+
+
+class RandomEffects(Spec):
+    """LMEPersonalizeAlgorithm._get_individual_random_effects_and_residuals, for ANY number m >= 0 of non-missing observations
+    (y_k at normalised ages a_k = (t_k - ages_mean) / ages_std, fixed-effect residuals r_k = y_k - fe_0 - fe_1 a_k):
+      random intercept only  --  b (m + c) = sum_k r_k                         (c = cov_re_unscaled_inv, 1x1);
+      random intercept+slope --  (Z'Z + C) b = Z'r  with Z = [1, a_k]           (C = cov_re_unscaled_inv, 2x2): the conditional mean
+    of the random effects given the fitted variance components; the returned residuals are r_k - (Z b)_k."""
+    target = "leaspy.algo.personalize.lme_personalize:LMEPersonalizeAlgorithm._get_individual_random_effects_and_residuals"
+    ob_meta = {"purify_first": False}
+
+    def configs(self):
+        return [dict(slope=False), dict(slope=True)]
+
+    def setup(self, cx, cfg):
+        from leaspy.algo.personalize.lme_personalize import LMEPersonalizeAlgorithm
+        model, par = _lme_model(cx, cfg["slope"])
+        n = z3.Int("n_visits")
+        times, values = STensor.sym(cx, "times", (n,)), STensor.sym(cx, "values", (n, 1))
+        return dict(args=(LMEPersonalizeAlgorithm, model, times, values), par=par, n=n)
+
+    def pre(self, cx, st):
+        par = st["par"]
+        C = par["cov_re_unscaled_inv"]
+        res = [("at least one visit; the ages were normalised by a non-zero spread", z3.And(st["n"] >= 1, par["ages_std"].e != 0))]
+        if not st["cfg"]["slope"]:
+            res.append(("cov_re_unscaled_inv > 0 (inverse of a variance ratio)", C.at(0, 0) > 0))
+        return res
+
+    # the 2x2 system is singular only if Z'Z + C is, which a positive definite C excludes (Cauchy-Schwarz on the sums: not
+    # discharged, see ASSUMPTIONS); on that path numpy raises LinAlgError, which this contract leaves unconstrained
+    may_raise = (np.linalg.LinAlgError,)
+
+    def post(self, cx, st, out):
+        from pyvc.tensor import sigma_term
+        par, g = st["par"], cx.ghost
+        r = out.value
+        ok = isinstance(r, tuple) and len(r) == 2 and isinstance(r[0], dict) and isinstance(r[1], STensor) and "n_obs" in g
+        res = [("(random effects, residuals) from the non-missing observations", z3.BoolVal(bool(ok)))]
+        if not ok:
+            return res
+        re_d, resid = r
+        m, Y, T = g["n_obs"], g["obs_values"], g["obs_ages"]
+        mean, std, fe, C = par["ages_mean"].e, par["ages_std"].e, par["fe_params"], par["cov_re_unscaled_inv"]
+
+        def a(k):
+            return (T.fn((k,)) - mean) / std
+
+        def r0(k):
+            return Y.fn((k,)) - fe.at(0) - fe.at(1) * a(k)
+        want = ["random_intercept"] + (["random_slope_age"] if st["cfg"]["slope"] else [])
+        res.append(("exactly the documented random effects", z3.BoolVal(sorted(re_d) == sorted(want))))
+        if sorted(re_d) != sorted(want):
+            return res
+
+        def val(x):
+            return x.elem_real(()) if isinstance(x, STensor) else to_z3(x, "real")
+        b = [val(re_d[nm]) for nm in want]
+        kq = z3.Int("k_p")
+        res.append(("one residual per non-missing observation", dim_z3(resid.shape_[0]) == m if resid.ndim == 1 else z3.BoolVal(False)))
+        if not st["cfg"]["slope"]:
+            res.append(("b (m + c) = sum of the fixed-effect residuals", b[0] * (z3.ToReal(m) + C.at(0, 0)) == sigma_term(cx, r0, m)))
+            res.append(("residuals: r_k - b", z3.ForAll([kq], z3.Implies(z3.And(0 <= kq, kq < m), resid.fn((kq,)) == r0(kq) - b[0]))))
+        else:
+            Z = [lambda k: z3.RealVal(1), a]
+            for i in range(2):
+                lhs = sum((sigma_term(cx, (lambda k, i=i, j=j: Z[i](k) * Z[j](k)), m) + C.at(i, j)) * b[j] for j in range(2))
+                res.append((f"row {i} of (Z'Z + C) b = Z'r", lhs == sigma_term(cx, (lambda k, i=i: Z[i](k) * r0(k)), m)))
+            res.append(("residuals: r_k - b_0 - b_1 a_k", z3.ForAll([kq], z3.Implies(z3.And(0 <= kq, kq < m), resid.fn((kq,)) == r0(kq) - b[0] - b[1] * a(kq)))))
+        return res
+
+
+class LmeTrajectory(Spec):
+    """LMEModel.compute_individual_trajectory: at every requested age t the straight line
+    (fe_0 + b_0) + (fe_1 + b_1) (t - ages_mean) / ages_std  (b_1 = 0 without random slope), shape (1, n_ages, 1)."""
+    target = "leaspy.models.lme:LMEModel.compute_individual_trajectory"
+
+    def configs(self):
+        return [dict(slope=s_) for s_ in (False, True)]
+
+    def setup(self, cx, cfg):
+        model, par = _lme_model(cx, cfg["slope"])
+        n = z3.Int("n_ages")
+        cx.assume(n >= 1)
+        ages = STensor.sym(cx, "ages", (n,))           # any number of requested ages, given as an array
+        ip = {"random_intercept": STensor.sym(cx, "b0", ()), "random_slope_age": STensor.sym(cx, "b1", ())}
+        if not cfg["slope"]:
+            del ip["random_slope_age"]
+        return dict(args=(model, ages, ip), par=par, ages=ages, ip=ip, n=n)
+
+    def pre(self, cx, st):
+        return [("non-zero age spread", st["par"]["ages_std"].e != 0)]
+
+    def post(self, cx, st, out):
+        r, cfg, par = out.value, st["cfg"], st["par"]
+        ok = isinstance(r, STensor) and r.ndim == 3
+        res = [("a 3-D tensor", z3.BoolVal(bool(ok)))]
+        if not ok:
+            return res
+        n = st["n"]
+        res.append(("shape (1, n_ages, 1)", z3.And(dim_z3(r.shape_[0]) == 1, dim_z3(r.shape_[1]) == n, dim_z3(r.shape_[2]) == 1)))
+        b0 = st["ip"]["random_intercept"].fn(())
+        b1 = st["ip"]["random_slope_age"].fn(()) if cfg["slope"] else z3.RealVal(0)
+        fe = par["fe_params"]
+        j = z3.Int("j_p")
+        res.append(("the straight line in (normalised) age", z3.ForAll([j], z3.Implies(z3.And(0 <= j, j < n),
+            r.elem_real((z3.IntVal(0), j, z3.IntVal(0))) ==
+            (fe.at(0) + b0) + (fe.at(1) + b1) * (st["ages"].fn((j,)) - par["ages_mean"].e) / par["ages_std"].e))))
+        return res
+
+
+def engine_setup(eng):
+    from pyvc import npmodels
+    npmodels.register_statsmodels()
+
+
+_GRE = GenericRandomEffects()
+UNITS = [ConstantTrajectory(), FeatureValues(), _GRE, RandomEffects(), LmeTrajectory()]
+CALLEES = [RemoveNans(), _GRE]
+NOT_DECIDED = ["agreement of the personalised random effects with the reference mixed-model library on the training individuals (depends on the fit): bounded stand-in only",
+               "the per-individual driver loops (_compute_individual_parameters of both algorithms) and LMEPersonalizeAlgorithm._remove_nans (boolean-mask selection; assumed callee contract): bounded stand-in only",
+               "invertibility of Z'Z + C for a positive definite C (Cauchy-Schwarz over sums): the singular path is left to numpy's LinAlgError"]
+ASSUMPTIONS = ["torch.tensor(nested list) builds the tensor row by row",
+               "numpy by contract: nanmax / nanmin (largest / smallest non-NaN entry along the axis, NaN iff all are), nanmean (sum of the non-NaN entries over their number), "
+               "argmax (first maximal entry), sorted(range(n), key=a.__getitem__, reverse=...) (a stable ordered permutation of the indices), a[index arrays] (gather), "
+               "dot / @ (sums of products), linalg.inv (a two-sided inverse; LinAlgError iff the determinant is 0; 1x1 and 2x2 only), statsmodels add_constant(has_constant='add') = [1, x]",
+               "NaN is the explicit predicate isnan(x) on real-valued entries; comparisons are only made between non-NaN entries by the modelled operations; ages are never NaN",
+               "LMEPersonalizeAlgorithm._remove_nans returns two arrays of one common length (assumed callee contract, exercised by the stand-in)"]
+LEVEL = "other"   # deductive kernel + stand-in for the library agreement and the driver loops
